@@ -347,5 +347,20 @@ def _sequential_case(draw):
   return {'kind': 'sequential', 'ops': draw(st.lists(op, min_size=1, max_size=8))}
 
 
+@st.composite
+def _record_growth_case(draw):
+  """A reader overlaps a call that adds a parameter to an *existing* operative record (the same
+  probe and scope called first with one argument shape, then with another)."""
+  i, sc = draw(st.integers(0, N_PROBES - 1)), draw(st.integers(0, 3))
+  s1, s2 = draw(st.sampled_from([(1, 2), (2, 1), (1, 0), (2, 0)]))
+  reader = [['read']] * draw(st.integers(1, 3))
+  programs = [[['call', i, sc, s1]] + reader, [['call', i, sc, s2]] + draw(st.lists(_op, max_size=2))]
+  if draw(st.booleans()):
+    programs.append([['read'], ['call', i, sc, s2]])
+  schedule = {'t': draw(st.lists(st.integers(0, 3), max_size=60)),
+              's': draw(st.integers(1, 2**31)), 'n': draw(st.sampled_from([300, 560]))}
+  return {'kind': 'threads', 'programs': programs, 'schedule': schedule}
+
+
 def strategy():
-  return st.one_of(_threads_case(), _threads_case(), _threads_case(), _sequential_case())
+  return st.one_of(_threads_case(), _threads_case(), _record_growth_case(), _sequential_case())
